@@ -53,6 +53,30 @@ Definition ns_oracle_frames (max : Z) (frames : list (list Z)) (feeds : list (li
     && match rev feeds with [] => true | (_, o) :: _ => nso_size o =? 0 end
   else true.
 
+(* ---------------- buffered reader driven by the callers' loop up to the END of the stream.
+   Observation: frames handed over, how the loop ended (0 = StatusEof, 1 = exception, 2 = neither within the harness'
+   generous bound on the number of calls), and - at StatusEof - the bytes left in the buffer and whether the next calls
+   answered StatusEof again.  The expectation is computed with the whole input as ONE fill: by
+   C20_ns_eof_chunking_independent it is the same for every chunking the real stream may have delivered. *)
+Definition ns_end_code (e : ns_end) : Z := match e with NsEndEof => 0 | NsEndErr _ => 1 | NsEndFuel => 2 end.
+
+Definition ns_oracle_eof (max : Z) (input : list Z) (items : list (list Z)) (en size sticky : Z) : bool :=
+  let '(fs, e, sz) := ns_read_all max [input] in
+  cd_frames_eqb fs items && (en =? ns_end_code e) &&
+  (if en =? 0 then (size =? sz) && (sticky =? 1) else true).
+
+(* ---------------- the real writers on a payload of n bytes built inside the harness (sizes around the digit-count boundaries,
+   too large to pass through a script), read back by the real readers.  The expectation is not computed by running the model on
+   the payload but taken from the theorems (ns_wbig_sound in CodecOracleProofs.v): header = decimal n ':', n + digits + 2 bytes,
+   ',' last, both writer overloads agree, and the payload comes back iff n < 10^9 and the limit allows it
+   (buffered reader: n + 1 <= max, TLS readers: n <= max), otherwise the reader throws *)
+Definition ns_wbig_back (tls : bool) (max n : Z) : bool :=
+  (n <? 10 ^ 9) && ((max <? 0) || (if tls then n <=? max else n + 1 <=? max)).
+
+Definition ns_oracle_wbig (tls : bool) (max n : Z) (hdr : list Z) (total : Z) (last : list Z) (same back err : Z) : bool :=
+  cd_bytes_eqb hdr (ns_dec n ++ [ns_colon]) && (total =? ns_len (ns_dec n) + n + 2) && cd_bytes_eqb last [ns_comma] && (same =? 1) &&
+  (if ns_wbig_back tls max n then (back =? 1) && (err =? 0) else (back =? 0) && (err =? 1)).
+
 (* ---------------- stream variant: frames read until the first error / end of the stream *)
 Fixpoint nss_run (fuel : nat) (max : Z) (input : list Z) : list (list Z) * Z * Z :=   (* items, end (0 short, 1 err), rest *)
   match fuel with
